@@ -78,7 +78,7 @@ func init() {
 			return 48
 		},
 		Batches: func(t string) int { return 16 },
-		Rule: "case = one history of WriteBytes (payload lengths biased to 0,1,2,7,8,9,55,56,255,256,4087,4088,4089,4096,8184,8192 and random) / Sync / Shift / Close+reopen on the real file WAL (2/3 with housekeeping idle and explicit Shift, 1/3 with a 10 ms housekeeper and a FileLimit of 64..600 bytes so that doHousekeeping rotates; half of those also with retention ON: TotalLimit 2-3x FileLimit, so that the eldest segments are deleted and the head index is > 0 before the crash; the history waits until the new segment / the removal is observable). Records of segments that housekeeping removed before the crash are outside the statement: the expected list starts at the first record of the oldest segment of the crash image (the monitor notes the first record index of every segment when it first observes it). Crash = copy of the segment files with the newest segment truncated to EVERY length from its synced length to its current length (byte-exhaustive for tails up to 700 bytes quick / 1500 thorough; larger tails: all offsets within 12 bytes of a frame boundary or a 4096 multiple, the first and last 200, and 200 random ones), plus the variant where a just-created empty newest segment is absent. Each image is recovered with the protocol of consensus.applyRoundWAL (read until error; EOF clean; corrupted/unexpected EOF -> CloseAndRepair; when a repair happened the log is reopened once more), then a writer is reopened, 1-2 records are appended and synced, optionally Shift, 0-2 further records stay unsynced, and the log is crashed again: byte-exhaustively for images selected by class (boundary classes with the per-depth probabilities of the tier), otherwise only with the complete tail; depth 3 quick / 5 thorough. Oracle after EVERY recovery: synced ⊑ recovered ⊑ appended. Non-trivial = distinct crash image (hash of the whole lineage) whose crash offset is strictly inside a frame (header or payload) or at the start of a rotated segment.",
+		Rule: "case = one history of WriteBytes (payload lengths biased to 0,1,2,7,8,9,55,56,255,256,4087,4088,4089,4096,8184,8192 and random) / Sync / Shift / Close+reopen on the real file WAL (2/3 with housekeeping idle and explicit Shift, 1/3 with a 10 ms housekeeper and a FileLimit of 64..600 bytes so that doHousekeeping rotates; half of those also with retention ON: TotalLimit 2-3x FileLimit, so that the eldest segments are deleted and the head index is > 0 before the crash; the history waits until the new segment / the removal is observable). 4 of every 48 histories (idle housekeeping, case%12==1) contain ONE large record of 2 MiB+1, 3 MiB, 2 MiB or 2 MiB-1 payload bytes (around wal.go's default FileLimit): three times synced early so that other synced records follow it, once (3 MiB) unsynced in the tail; these histories are explored to depth 2 with about 10 level-1 offsets (both ends + PRNG choice; multi-megabyte slices are very slow under the race detector) (tail with the large record: offsets near frame boundaries, the first/last eight 4096 multiples and those around 2 MiB, first/last 40, 40 random). Housekeeper histories also append payloads of exactly FileLimit-8, FileLimit and FileLimit+1 bytes. Records of segments that housekeeping removed before the crash are outside the statement: the expected list starts at the first record of the oldest segment of the crash image (the monitor notes the first record index of every segment when it first observes it). Crash = copy of the segment files with the newest segment truncated to EVERY length from its synced length to its current length (byte-exhaustive for tails up to 700 bytes quick / 1500 thorough; larger tails: all offsets within 12 bytes of a frame boundary or a 4096 multiple, the first and last 200, and 200 random ones), plus the variant where a just-created empty newest segment is absent. Each image is recovered with the protocol of consensus.applyRoundWAL (read until error; EOF clean; corrupted/unexpected EOF -> CloseAndRepair; when a repair happened the log is reopened once more), then a writer is reopened, 1-2 records are appended and synced, optionally Shift, 0-2 further records stay unsynced, and the log is crashed again: byte-exhaustively for images selected by class (boundary classes with the per-depth probabilities of the tier), otherwise only with the complete tail; depth 3 quick / 5 thorough. Oracle after EVERY recovery: synced ⊑ recovered ⊑ appended. Non-trivial = distinct crash image (hash of the whole lineage) whose crash offset is strictly inside a frame (header or payload) or at the start of a rotated segment.",
 		MinNonTrivial: func(t string) int {
 			if t == ev.Thorough {
 				return 300000
@@ -92,6 +92,7 @@ func init() {
 			"appends_after_recovery", "records_recovered", "synced_records_checked",
 			"explicit_shifts", "housekeeper_rotations", "close_reopen_ops", "tails_byte_exhaustive",
 			"retention_removed_segments", "images_head_index_gt0", "recoveries_after_retention_dropped_head",
+			"histories_with_record_over_2MiB", "recoveries_over_large_record",
 			"depth_1_images", "depth_2_images", "depth_3_images",
 		},
 		Assumptions: []string{
@@ -544,6 +545,9 @@ type explorer struct {
 	root   string
 	salt   int64
 	caseNo int
+	// large > 0: the history contains one record of that payload length
+	// (around wal.go's 2 MiB default FileLimit); exploration is then kept small
+	large int
 	// failedLineages counts lineages of this case that ended in a violation;
 	// beyond a small budget the case stops (the keys are already recorded).
 	failedLineages int
@@ -650,6 +654,13 @@ func (e *explorer) check(m *model, dir string, rc *recovery, cause, phase string
 		}
 	}
 	c.Count("records_recovered", len(rc.recs))
+	for _, rec := range rc.recs {
+		if len(rec) > twoMiB {
+			c.Count("recoveries_over_large_record", 1)
+		} else if len(rec) >= twoMiB-1 {
+			c.Count("recoveries_over_record_at_2MiB_boundary", 1)
+		}
+	}
 	// synced ⊑ recovered
 	if len(rc.recs) < mSynced {
 		c.Violation("wal.synced-record-lost."+cause, e.witness(m, dir, rc, map[string]interface{}{"phase": phase, "first_lost_index": m.base + len(rc.recs), "first_lost_record": short(mAppended[len(rc.recs)])}))
@@ -669,6 +680,8 @@ func (e *explorer) check(m *model, dir string, rc *recovery, cause, phase string
 	m.appended = all[:m.base+len(rc.recs)]
 	return true
 }
+
+const twoMiB = 2 * 1024 * 1024
 
 func (e *explorer) prob(ps []float64, depth int) float64 {
 	if depth < len(ps) {
@@ -710,16 +723,24 @@ func (e *explorer) crashPoints(img *image, exhaustive bool) []crashPoint {
 			}
 			o += headerLen + int64(binary.BigEndian.Uint32(tail[o+4:o+8]))
 		}
+		edge, rnd := int64(200), 200
+		huge := t > 200000 // a multi-megabyte record in the tail: every image costs megabytes of I/O
+		if huge {
+			edge, rnd = 40, 40
+		}
 		for b := int64(0); b <= img.f+4096; b += 4096 {
+			if huge && b > 8*4096 && b < img.f-8*4096 && b != twoMiB && b != twoMiB+4096 {
+				continue
+			}
 			for d := int64(-3); d <= 3; d++ {
 				want[b+d] = true
 			}
 		}
-		for d := int64(0); d < 200; d++ {
+		for d := int64(0); d < edge; d++ {
 			want[img.s+d] = true
 			want[img.f-d] = true
 		}
-		for k := 0; k < 200; k++ {
+		for k := 0; k < rnd; k++ {
 			want[img.s+e.r.Int63n(t+1)] = true
 		}
 		for l := range want {
@@ -853,7 +874,7 @@ func (e *explorer) explore(img *image, cp crashPoint, m *model, depth int) {
 		}
 		m.noteSegments(sz)
 	}
-	if depth >= e.p.maxDepth {
+	if depth >= e.p.maxDepth || (e.large > 0 && depth >= 2) {
 		c.Count("lineages_completed", 1)
 		return
 	}
@@ -917,7 +938,7 @@ func (e *explorer) explore(img *image, cp crashPoint, m *model, depth int) {
 	} else {
 		pr = e.prob(e.p.deepOther, depth)
 	}
-	deep := e.r.Float64() < pr
+	deep := e.r.Float64() < pr && e.large == 0
 	for _, ncp := range e.crashPoints(next, deep) {
 		if e.giveUp() {
 			return
@@ -972,6 +993,12 @@ func (e *explorer) history(ci int) (*image, *model) {
 			}
 		}
 	}()
+	largeInTail := false
+	if !housekeeper && ci%12 == 1 {
+		k := (ci / 12) % 4
+		e.large = []int{twoMiB + 1, 3 * 1024 * 1024, twoMiB, twoMiB - 1}[k]
+		largeInTail = k == 1
+	}
 	bigLeft := 0
 	if r.Intn(5) == 0 {
 		bigLeft = 1 + r.Intn(2)
@@ -1018,6 +1045,9 @@ func (e *explorer) history(ci int) (*image, *model) {
 	doWrite := func() bool {
 		var n int
 		switch x := r.Intn(10); {
+		case housekeeper && x == 9 && cfg.FileLimit < 4000:
+			n = int(cfg.FileLimit) + []int{-8, 0, 1}[r.Intn(3)]
+			c.Count("writes_of_filelimit_size", 1)
 		case retention && x >= 2:
 			n = 20 + r.Intn(110)
 		case bigLeft > 0 && x < 3:
@@ -1044,6 +1074,47 @@ func (e *explorer) history(ci int) (*image, *model) {
 	nOps := 2 + r.Intn(9)
 	if retention {
 		nOps = 14 + r.Intn(12) // enough bytes to exceed TotalLimit
+	}
+	writeLarge := func() bool {
+		p := payload(e.salt, m.nextSeq, e.large, 0)
+		c.Note("write#%d len=%d (large record)", m.nextSeq, e.large)
+		if err := w.write(p, 0); err != nil {
+			c.Notef("harness: write: %v", err)
+			return false
+		}
+		c.Count("history_writes", 1)
+		c.Count("histories_with_record_around_2MiB", 1)
+		if e.large > twoMiB {
+			c.Count("histories_with_record_over_2MiB", 1)
+		}
+		return afterOp()
+	}
+	if e.large > 0 && !largeInTail {
+		// the large record becomes durable early; other synced records follow it
+		for i := 0; i < r.Intn(3); i++ {
+			if !doWrite() {
+				return nil, nil
+			}
+		}
+		if !writeLarge() {
+			return nil, nil
+		}
+		if err := w.sync(); err != nil {
+			c.Notef("harness: sync: %v", err)
+			return nil, nil
+		}
+		if r.Intn(2) == 0 {
+			if err := w.shift(); err != nil {
+				c.Notef("harness: shift: %v", err)
+				return nil, nil
+			}
+			c.Count("explicit_shifts", 1)
+			maxIdx++
+		}
+		if !afterOp() {
+			return nil, nil
+		}
+		nOps = 2 + r.Intn(4)
 	}
 	for i := 0; i < nOps; i++ {
 		x := r.Intn(100)
@@ -1119,6 +1190,11 @@ func (e *explorer) history(ci int) (*image, *model) {
 		}
 	}
 	// unsynced tail
+	if e.large > 0 && largeInTail {
+		if !writeLarge() {
+			return nil, nil
+		}
+	}
 	for i := 0; i < 1+r.Intn(4); i++ {
 		if !doWrite() {
 			return nil, nil
@@ -1174,6 +1250,22 @@ func run(c *ev.Ctx) {
 		}
 		c.Count("tail_bytes_enumerated", int(img.f-img.s))
 		pts := e.crashPoints(img, true)
+		if e.large > 0 && len(pts) > 10 {
+			// every image re-writes and re-reads megabytes, and the race detector's range
+			// instrumentation costs ~0.3 s per 2 MB slice access: keep both ends and ~8 PRNG-chosen offsets
+			var keep []crashPoint
+			lim := 8
+			if img.f-img.s > 200000 {
+				lim = 4 // the large record itself is in the torn tail
+			}
+			for _, cp := range pts {
+				if cp.keep == img.s || cp.keep == img.f || cp.dropTail || r.Intn(len(pts)) < lim {
+					keep = append(keep, cp)
+				}
+			}
+			pts = keep
+			c.Count("level1_offsets_subsampled_for_large_record", 1)
+		}
 		if c.WantSample() {
 			c.Sample(map[string]interface{}{"history": m.hist, "newest_segment_synced": img.s, "newest_segment_size": img.f, "crash_images_level1": len(pts)})
 		}
